@@ -772,6 +772,116 @@ def is_multiple_cases():
     return cs
 
 
+# ---- gtc/integer, gtx/integer, gtx/bit ------------------------------------------------------------------------------------------------------------------
+
+def gtx_integer_cases(tier):
+    """log2 / nlz / lowestBitValue by shape analysis (position of the deciding bit fixed, the other bits symbolic); pow(x, n) for constant exponents as a
+    polynomial identity in x; unsigned mod as the remainder; factorial on its whole documented domain 0..12 (the kernel with a constant argument must
+    reduce to the constant n!)"""
+    import math
+    cs = []
+    it_, ut = G.scalar('int'), G.scalar('uint')
+    x32 = tm.inp('x', 0, 32)
+
+    def shapes_msb(w, x, lo=0):
+        out = []
+        for p in range(lo, w):
+            parts = ([tm.slice_(x, 0, p)] if p else []) + [tm.const(1, 1)] + ([tm.zeros(w - p - 1)] if w - p - 1 else [])
+            out.append((p, tm.concat(parts)))
+        return out
+
+    def shapes_lsb(w, x):
+        out = []
+        for p in range(w):
+            parts = ([tm.zeros(p)] if p else []) + [tm.const(1, 1)] + ([tm.slice_(x, p + 1, w - p - 1)] if w - p - 1 else [])
+            out.append((p, tm.concat(parts)))
+        return out
+
+    def shape_case(name, k, outw, shapes, expect, what):
+        def judge(ctx):
+            err = ctx.compile_error(k)
+            if err:
+                return [R.ob(name, 'existence', R.REFUTED, 'cannot be instantiated: ' + err, kernel=k.source())]
+            it = ctx.fn(k)
+            t = I.out_lane(it, 'o', 0, outw // 8)
+            bad = und = None
+            for p, shp in shapes:
+                r = tm.substitute(t, {x32: shp})
+                want = expect(p) & ((1 << outw) - 1)
+                if r.op == 'const':
+                    if r.args[0] != want:
+                        bad = bad or (p, r.args[0], want)
+                else:
+                    und = und or (p, tm.show(r, 3))
+            if bad:
+                return [R.ob(name, 'gtx_integer', R.REFUTED, '%s: for every value with the deciding bit at %s the result is %#x, expected %#x' % ((what,) + bad), where=R.where_of(it, t), kernel=k.source())]
+            if und:
+                return [R.ob(name, 'gtx_integer', R.UNDECIDED, 'does not normalise to a constant on the shape with the deciding bit at %s: %s' % und, kernel=k.source())]
+            return [R.ob(name, 'gtx_integer', R.PROVED, '%s on all %d shapes (deciding bit fixed, other bits symbolic)' % (what, len(shapes)), kernel=k.source())]
+        return R.Case(name, [k], judge)
+
+    zero = [(-1, tm.zeros(32))]
+    cs.append(shape_case('log2<uint>', K('glog2_u', [Par('o', ut, False), Par('x', ut)], '*o = glm::log2(*x);', CFG), 32, shapes_msb(32, x32), lambda p: p, 'log2(x) == position of the highest set bit (floor of the binary logarithm)'))
+    cs.append(shape_case('log2<int>', K('glog2_i', [Par('o', it_, False), Par('x', it_)], '*o = glm::log2(*x);', CFG), 32, shapes_msb(32, x32)[:31], lambda p: p, 'log2(x) == position of the highest set bit for x > 0'))
+    cs.append(shape_case('nlz', K('gnlz', [Par('o', ut, False), Par('x', ut)], '*o = nlz(*x);', CFG), 32, shapes_msb(32, x32) + zero, lambda p: 31 - p, 'nlz(x) == number of leading zero bits (32 for 0)'))
+    cs.append(shape_case('lowestBitValue<uint>', K('glowbit_u', [Par('o', ut, False), Par('x', ut)], '*o = lowestBitValue(*x);', CFG), 32, shapes_lsb(32, x32) + [(-1, tm.zeros(32))], lambda p: (1 << p) if p >= 0 else 0, 'lowestBitValue(x) == the lowest set bit of x'))
+    cs.append(shape_case('lowestBitValue<int>', K('glowbit_i', [Par('o', it_, False), Par('x', it_)], '*o = lowestBitValue(*x);', CFG), 32, shapes_lsb(32, x32) + [(-1, tm.zeros(32))], lambda p: (1 << p) if p >= 0 else 0, 'lowestBitValue(x) == the lowest set bit of x'))
+    # pow with a constant exponent
+    for T, ty in (('int', it_), ('uint', ut)):
+        for n in range(0, 5):
+            k = K('gpow_%s_%d' % (ty.tag, n), [Par('o', ty, False), Par('x', ty)], '*o = glm::pow(*x, %du);' % n, CFG)
+            name = 'pow(x, %d)<%s>' % (n, T)
+
+            def judge(ctx, k=k, n=n, name=name):
+                it = ctx.fn(k)
+                t = I.out_lane(it, 'o', 0, 4)
+                pc = P.PCtx()
+                X = Poly.atom(('in', 'x', 0, 32), 1 << 32)
+                want = Poly.const(1, 1 << 32)
+                for _ in range(n):
+                    want = want * X
+                try:
+                    got = pc.ipoly(t, 32)
+                except Exception:
+                    got = None
+                if got is not None and got == want:
+                    return [R.ob(name, 'gtx_integer', R.PROVED, 'x^%d as a polynomial modulo 2^32' % n, kernel=k.source())]
+                wit = L.pattern_witness(t, tm.const(32, 1)) if n == 0 else None
+                if wit:
+                    return [R.ob(name, 'gtx_integer', R.REFUTED, 'pow(x, 0) is %s: for x = %s it returns %#x, the mathematical value is 1' % (tm.show(t, 4), list(wit[0].values())[0], wit[1]), where=R.where_of(it, t), kernel=k.source())]
+                return [R.ob(name, 'gtx_integer', R.UNDECIDED, 'got %s' % tm.show(t, 4), kernel=k.source())]
+            cs.append(R.Case(name, [k], judge))
+    # unsigned mod
+    km = K('gmod_u', [Par('o', ut, False), Par('x', ut), Par('y', ut)], '*o = glm::mod(*x, *y);', CFG)
+
+    def jm(ctx):
+        t = I.out_lane(ctx.fn(km), 'o', 0, 4)
+        x, y = tm.inp('x', 0, 32), tm.inp('y', 0, 32)
+        ok = t is tm.arith('urem', x, y)
+        if not ok:
+            pc = P.PCtx()
+            try:
+                X, Y = pc.ipoly(x, 32), pc.ipoly(y, 32)
+                ok = pc.ipoly(t, 32) == X - Y * pc.ipoly(tm.arith('udiv', x, y), 32)
+            except Exception:
+                ok = False
+        return [R.ob('mod(x, y)<uint>', 'gtx_integer', R.PROVED if ok else R.UNDECIDED, 'x - y * (x / y): the remainder' if ok else 'got %s' % tm.show(t, 4), kernel=km.source())]
+    cs.append(R.Case('mod(x, y)<uint>', [km], jm))
+    # factorial on 0..12
+    for n in range(0, 13):
+        k = K('gfact_%d' % n, [Par('o', it_, False)], '*o = factorial(%d);' % n, CFG)
+        name = 'factorial(%d)' % n
+
+        def jf(ctx, k=k, n=n, name=name):
+            t = I.out_lane(ctx.fn(k), 'o', 0, 4)
+            if t.op == 'const':
+                ok = t.args[0] == math.factorial(n)
+                return [R.ob(name, 'gtx_integer', R.PROVED if ok else R.REFUTED, '%d! == %d' % (n, math.factorial(n)) if ok else 'the kernel reduces to %d, %d! is %d' % (t.args[0], n, math.factorial(n)), kernel=k.source())]
+            return [R.ob(name, 'gtx_integer', R.UNDECIDED, 'not reduced to a constant: %s' % tm.show(t, 3), kernel=k.source())]
+        cs.append(R.Case(name, [k], jf))
+    return cs
+
+
 def cases(tier):
     cs = []
     cs += interleave_cases()
@@ -780,6 +890,7 @@ def cases(tier):
     cs += floor_pow2_cases(tier)
     cs += multiple_cases(tier)
     cs += is_multiple_cases()
+    cs += gtx_integer_cases(tier)
     cs += canaries()
     return cs
 
